@@ -73,7 +73,7 @@ def act_str(a):
     if k == "setheld":
         return "tmp[0]=unit(%s)" % ",".join(cc.ids_str(a["ycell"]))
     if k == "combine":
-        return "combine(+%s)" % ",".join(cc.ids_str(a["ocell"]))
+        return "combine(%s%s)" % ("+" if a.get("order", "first") == "first" else "first:", ",".join(cc.ids_str(a["ocell"])))
     if k == "astype":
         return "astype(%s)" % a["dtype"]
     return k
@@ -93,6 +93,8 @@ class Ctx:
         self.tol = cc.TOL
         self.complex = False
         self.negreps = False  # some units were handed over as -x
+        self.prev = None      # the receiver of the last call that returned a new object, and its abstract state
+        self.prev_state = None
 
     def hold(self, arr):
         self.inputs.append((arr, np.array(arr, copy=True)))
@@ -132,7 +134,7 @@ def clone_ctx(ctx):
     # array my cached value was computed from") is mapped to the same clone: identity relations survive as well
     memo = {}
     keep = []
-    for o in (ctx.obj, ctx.held):
+    for o in (ctx.obj, ctx.held, ctx.prev):
         if o is not None:
             for v in o.__dict__.values():
                 if isinstance(v, np.ndarray) and id(v) not in memo:
@@ -143,7 +145,7 @@ def clone_ctx(ctx):
             memo[id(arr)] = amap(arr)
             keep.append(arr)
     c = copy.copy(ctx)
-    c.obj, c.held, arrs = copy.deepcopy((ctx.obj, ctx.held, [arr for (arr, _s) in ctx.inputs]), memo)
+    c.obj, c.held, c.prev, arrs = copy.deepcopy((ctx.obj, ctx.held, ctx.prev, [arr for (arr, _s) in ctx.inputs]), memo)
     c.inputs = [(a2, snap) for a2, (_a, snap) in zip(arrs, ctx.inputs)]
     return c
 
@@ -153,6 +155,11 @@ def perform(ctx, act, frm, to):
     k = act["a"]
     cls, dim = ctx.cls, ctx.dim
     C = cc.lib_class(cls)
+    if k in ("copy", "apply", "reshape", "flatten", "index", "slice", "stack", "combine", "astype"):
+        # these calls return a new object: the caller still holds the receiver, which must stay what it was
+        ctx.prev, ctx.prev_state = ctx.obj, frm
+    else:
+        ctx.prev = ctx.prev_state = None
     if k == "construct":
         obj, (data,) = cc.build(TABS, cls, dim, to["shape"], to["pc"], route=act["route"], neg=act.get("neg", ()))
         ctx.obj = obj
@@ -226,11 +233,11 @@ def perform(ctx, act, frm, to):
         ctx.held[0] = val
     elif k == "stack":
         ids = [cc.as_id(i) for i in frm["pc"]][::-1]
-        other, _ = cc.build(TABS, cls, dim, frm["shape"], ids)
+        other, _ = cc.build(TABS, cls, dim, frm["shape"], ids, scale=0.3)
         ctx.obj = C([ctx.obj, other])
     elif k == "combine":
-        other, _ = cc.build(TABS, cls, dim, act["oshape"], act["ocell"])
-        ctx.obj = C.combine([ctx.obj, other])
+        other, _ = cc.build(TABS, cls, dim, act["oshape"], act["ocell"], scale=0.3)
+        ctx.obj = C.combine([ctx.obj, other] if act.get("order", "first") == "first" else [other, ctx.obj])
     elif k == "astype":
         ctx.obj = ctx.obj.astype(act["dtype"])
         if act["dtype"] == "float32":
@@ -422,9 +429,10 @@ def tangent_reversed(before, obj):
     return None
 
 
-def battery(ctx, state):
+def battery(ctx, state, obj=None):
     """call every query of the class; the object, the other operand and the caller's arrays must not move"""
-    cls, dim, obj = ctx.cls, ctx.dim, ctx.obj
+    cls, dim = ctx.cls, ctx.dim
+    obj = ctx.obj if obj is None else obj
     ids = [cc.as_id(i) for i in state["pc"]]
     K = TABS.K
     oids = [((i[0] % K) + 1, ()) for i in ids]          # another object of the same shape, other units
@@ -511,6 +519,11 @@ def project(ctx, state):
         bad = cc.check_object(TABS, ctx.held, ctx.cls, ctx.dim, state["hshape"], state["hpc"], tol=ctx.tol)
         if bad:
             return ("held_object:" + bad[0], bad[1])
+    if ctx.prev is not None:
+        # a call that returns a new object leaves its receiver in the state it was in
+        bad = cc.check_object(TABS, ctx.prev, ctx.cls, ctx.dim, ctx.prev_state["shape"], ctx.prev_state["pc"], tol=ctx.tol)
+        if bad:
+            return ("receiver_of_last_call:" + bad[0], bad[1])
     # arrays the caller handed over (constructor input, assigned values) are the caller's: no later call on the
     # object may write into them
     for n, (arr, snap) in enumerate(ctx.inputs):
@@ -538,10 +551,18 @@ def explore(ctx, key, state, hist, depth, st, qrate, rng, root=False, lts="main"
     # tier on a seeded tenth of those states
     if edited and len(hist) > 4:
         edited = rng.random() < 0.1
-    if not ctx.complex and (root or edited or qrate >= 1.0 or rng.random() < qrate):
+    # the first call after the constructor that returns a new object: query the result, then the receiver (memoised
+    # values shared between an object and the objects made from it)
+    derived = ctx.prev is not None and len(hist) == 3 and ctx.dim == 2 and hist[1].startswith("construct(array)")
+    if not ctx.complex and (root or edited or derived or qrate >= 1.0 or rng.random() < qrate):
         try:
             n, bad = battery(ctx, state)
             st.queries += n
+            if not bad and ctx.prev is not None and not np.iscomplexobj(ctx.prev.proj_data):
+                n, bad = battery(ctx, ctx.prev_state, obj=ctx.prev)
+                st.queries += n
+                if bad:
+                    bad = ("receiver_queried_after_result:" + bad[0], bad[1])
             if not bad:
                 bad = project(ctx, state)
                 if bad:
@@ -685,7 +706,8 @@ def run(run, replay=None):
     run.assumptions += [
         "classes: projective Polygon, hyperbolic Polygon, Segment, TangentVector (derived data) and hyperbolic Point; "
         "dimension 2 (and 3 with a smaller depth)",
-        "histories: constructor (from an array / an array with some units stored as -x / a list of objects / an object) "
+        "histories: constructor (from an array / an array with some units stored as -x / an integer-typed array / a "
+        "Fortran-contiguous array / a non-contiguous negative-stride view / a list of objects / an object) "
         "then up to 2 state-changing calls (one less for the other constructor routes than from an array, in dimension 3 "
         "and for hyperbolic Point; quick: depth 2 only from the objects of shape (), (2,), (3,), (2,2) and one "
         "representative per family of item-assignment arguments); thorough adds depth 3 from the array-built objects of "
@@ -693,6 +715,10 @@ def run(run, replay=None):
         "objects of at most 6 units, at most two transformations per unit; an indexed sub-object kept by the caller "
         "(tmp = obj[i], sub = obj[a:b]) is part of the state and is projected after every step; every array the caller "
         "handed over must keep representing the same points after every step",
+        "the receiver of a call that returns a new object is projected after the call; for the first such call after an "
+        "array constructor (dimension 2) the result is queried and then the receiver, both against fresh objects; the "
+        "other operand of stack / combine holds float data scaled by 0.3 (mixed dtypes with the integer-typed route), "
+        "combine in both orders",
         "the query battery runs after the constructor, after every item assignment (a seeded tenth of them at depth 3) "
         "and on a seeded 5% (quick) / 4% (thorough) of the other states; the comparison with a fresh object is skipped "
         "for objects built from -x representatives (sign conventions of returned representatives are C12's subject)",
@@ -742,7 +768,8 @@ def run(run, replay=None):
             if quick and tuple(to["shape"]) in ((1, 2), (2, 1)):
                 d2 = min(d2, 1)           # quick: depth 2 from the objects of shape (), (2,), (3,), (2,2)
             jobs.append((cls, 2, act, tk, to, d2, "main"))
-            jobs.append((cls, 3, act, tk, to, max(d2 - 1, 0), "main"))
+            if act["route"] in ("array", "negarray", "list", "object"):
+                jobs.append((cls, 3, act, tk, to, max(d2 - 1, 0), "main"))
     for key, succ in LTS.get("deep", {}).items():
         if key[1]:
             continue
